@@ -19,6 +19,6 @@ Bound == TLCGet("level") <= MaxLevel /\ RestartOK
 \* one JSON line per finished run (completed or aborted): configuration, failure point, the file the specification predicts
 EmitRun == (pc = "Done" \/ ~Running) =>
               PrintT(ToJson([steps |-> cfg.steps, sc |-> cfg.sc, sn |-> cfg.sn, tight |-> cfg.tight, skip |-> cfg.skip, roles |-> roles,
-                             crash |-> crash, file |-> FileView, val |-> val, phase |-> phase, crash1 |-> crash1, probes |-> probes,
+                             crash |-> crash, file |-> FileView, val |-> val, phase |-> phase, crash1 |-> crash1, probes |-> probes, touch |-> Touching,
                              nsrc |-> Len(src)]))
 =====================================================================================================
